@@ -32,6 +32,10 @@ def run(ctx):
     ctx.floor('R10.2', n, 25)
     r3(ctx)
     r6(ctx)
+    import ownership
+    ctx.rule('R10.7', 'a track has observations of a class only through its mutators (a class entry created elsewhere - empty - '
+                      'turns the missing-class error of a distance query into an empty answer)')
+    ctx.floor('R10.7', ownership.run(ctx, 'R10.7', 'C10'), 2)
     ctx.rule('R10.5', 'Track::distances: compatible guard, full pair product without short-circuit, query/result wiring')
     ctx.floor('R10.5', S.rule_track_distances(ctx, 'R10.5'), 7)
 
@@ -288,9 +292,8 @@ def r3(ctx):
         ctx.check(not dd, R4, o, 'nothing-destroyed', '', 'tracks can be destroyed: %s' % dd)
 
 
-def r6(ctx):
-    R = 'R10.6'
-    ctx.rule(R, 'the default postprocess_distances is the identity; dropping the store does not mutate shards while '
+def r6(ctx, R='R10.6'):
+    (ctx.rule if R == 'R10.6' else (lambda *a: None))(R, 'the default postprocess_distances is the identity; dropping the store does not mutate shards while '
                 'queries may be in flight')
     b = ctx.anchor(R, 'track::ObservationMetric::postprocess_distances')
     if b is not None:
